@@ -55,7 +55,7 @@ CHECKS = {
                 "reference table. Non-trivial = non-empty sentence fully compared; distinct = hash of (dictionary, sentence, options).",
         "required_buckets": ["invoke0_lex_match_suppresses", "invoke1_with_lex_match", "group_run", "group_omitted_by_mgl",
                              "length_limited_by_run", "dup_run_length_skipped", "fallback_single_char", "multi_category_char",
-                             "astral_start", "homographs_at_position", "user_lexicon_candidate", "space_skipped"],
+                             "astral_start", "homographs_at_position", "user_lexicon_candidate", "space_skipped", "user_lexicon_loaded_then_cleared"],
         "required_buckets_thorough": ["whole_bmp_table_compared"],
         "assumptions": ["with ignore_space the candidate comparison is made only on dictionaries meeting C12's precondition"],
     },
@@ -127,7 +127,8 @@ CHECKS = {
                 "reference skip rule (candidates, membership, optimum); ignore_space(true) without SPACE must be Err. "
                 "Non-trivial = sentence with a space run and >= 1 token compared with >= 1 variant; distinct = hash of (dictionary, sentence).",
         "required_buckets": ["inner_space_run", "leading_space_run", "trailing_space_run", "spaces_only_sentence",
-                             "grouped_unknown_word_next_to_space", "ignore_space_rejected_without_SPACE", "connector_matrix", "connector_raw", "connector_dual"],
+                             "grouped_unknown_word_next_to_space", "ignore_space_rejected_without_SPACE", "connector_matrix", "connector_raw", "connector_dual",
+                             "space_run_longer_than_65535"],
         "assumptions": [],
     },
     "C05": {
@@ -280,7 +281,7 @@ CHECKS = {
                 "files on disk, optional user lexicon, --conn-id-info-out) are run twice in separate processes on the same inputs: all seven "
                 "files agree between the two runs and with files generated in-process without any write/read. "
                 "Distinct = hash of the generated files.",
-        "required_buckets": ["training_succeeded", "generated_twice", "in_memory_vs_reloaded_compared", "second_round_trip_compared",
+        "required_buckets": ["training_succeeded", "generated_twice", "in_memory_vs_reloaded_compared", "second_round_trip_compared", "model_read_through_chunked_reader",
                              "user_lexicon_added_after_a_generation", "user_lexicon_added_before_first_generation",
                              "cli_pipeline_train_dictgen_twice", "cli_files_equal_in_process_files"],
         "assumptions": ["user entries are not part of the stored model (the CLI re-reads them), so user.csv is compared only when both sides read the same user lexicon"],
@@ -300,8 +301,8 @@ CHECKS = {
     },
     "C17": {
         "stages": [
-            st("main", "rel", [8, 40], [60, 500]),
-            st("dbgassert", "relda", [2, 8], [40, 300], shards=8),
+            st("main", "rel", [16, 48], [60, 500]),
+            st("dbgassert", "relda", [8, 16], [40, 300], shards=8),
         ],
         "rule": "the real parse_rewrite_config + FeatureRewriter::rewrite (function hook) against a linear-scan reference. Even cases: a slice of "
                 "the small scope `all lists of <= 3 rules with patterns of length <= 2 over {*, a, b, (a|b), (a)}` x all 85 feature lists of "
@@ -311,7 +312,7 @@ CHECKS = {
                 "all 599 844 lists of <= 3 rules with patterns of length <= 3 x all 341 feature lists of length <= 4 (~2*10^8 evaluations). "
                 "Distinct = hash of the rule text.",
         "required_buckets": ["small_scope_slice_enumerated", "random_rule_lists", "some_rule_matched", "no_rule_matched",
-                             "later_rule_shares_first_pattern_with_earlier_rule_across_an_intervening_rule"],
+                             "later_rule_shares_first_pattern_with_earlier_rule_across_an_intervening_rule", "rules_applied_by_the_trainer_checked"],
         "required_buckets_thorough": ["medium_scope_slice_enumerated"],
         "exhaustive_total": ["rule_lists_in_small_scope", 27930],
         "exhaustive_bucket": "small_scope_slice_enumerated",
@@ -344,7 +345,7 @@ CHECKS = {
                 "inserted at a random place must yield Err. Every 25th case drives the REAL `compile` and `tokenize` binaries on a generated "
                 "dictionary (any connector kind, -S/-M options) with 33 input lines and parses their stdout as a corpus: tokens = the "
                 "tokens obtained in-process for the same lines. Distinct = hash of the corpus text / CLI output.",
-        "required_buckets": ["sentence_without_tokens_dropped", "token_whose_surface_is_EOS", "malformed_line_rejected",
+        "required_buckets": ["sentence_without_tokens_dropped", "token_whose_surface_is_EOS", "malformed_line_rejected", "non_utf8_line_rejected",
                              "tokenizer_cli_output_parsed_as_corpus"],
         "assumptions": ["tokenizer inputs and dictionary features contain no tab or line break"],
     },
@@ -360,7 +361,7 @@ CHECKS = {
                 "dense and increasing; a gap, a malformed id line or a non-BOS/EOS id 0 (in either table) must yield Err. "
                 "Distinct = hash of the description.",
         "required_buckets": ["non_zero_cost_compared", "optional_template_not_applicable", "id_tables_of_different_sizes",
-                             "rejected_gap_among_ids", "rejected_malformed_id_line", "rejected_id_0_not_BOS_EOS", "id_table_lines_not_in_ascending_order"],
+                             "rejected_gap_among_ids", "rejected_malformed_id_line", "rejected_id_0_not_BOS_EOS", "id_table_lines_not_in_ascending_order", "weights_beyond_16_bits_after_scaling"],
         "assumptions": ["feature values contain no '/' and id tables start at 0 with BOS/EOS, as MeCab's do; duplicate model lines are not generated"],
     },
 }
